@@ -9,7 +9,7 @@ MODEL = "pysmt.solvers.solver.Model"
 
 EXPLANATION = (
     "Abstract interpretation of pysmt/solvers/eager.py and Model.satisfies / get_py_value / __getitem__ of "
-    "pysmt/solvers/solver.py, with the substituter and the simplifier they call: on ~25 operator skeletons "
+    "pysmt/solvers/solver.py, with the substituter and the simplifier they call: on ~120 operator skeletons "
     "(Boolean structure, linear and non-linear Int/Real arithmetic, ToReal, division by a constant, every "
     "bit-vector operator family, terms as well as formulas) an EagerModel is built whose arithmetic and "
     "bit-vector values are *symbolic* constants and whose Boolean values are enumerated, so one interpretation "
@@ -19,7 +19,7 @@ EXPLANATION = (
     "model.  With an empty model and completion the value is the one under the documented defaults (false, 0, "
     "zero bit-vector); without completion the call raises or returns a value that holds under every "
     "completion (R5).  The exactness of each constant fold is decided operator by operator by C01.  String skeletons and reals that differ by less than a double can tell are decided with concrete models over small domains, all models of one skeleton in ONE interpretation (a value cached across models would show).")
-NOT_DECIDED = ["skeletons outside the menu; strings and arrays in models (their folds are decided by C01 only)"]
+NOT_DECIDED = ["skeletons outside the menu; string skeletons only over concrete models on small domains; array-valued model entries (arrays occur inside terms, their folds are also decided by C01)"]
 
 
 def run(ctx):
